@@ -335,21 +335,39 @@ def multi_part(ck, sd, sites, quick):
     skipped = [c['id'] for c, o in zip(cases, outs) if o.get('linterr')]
     if len(skipped) > len(cases) // 4:
         raise Inconclusive('multi-file runs fail: %s' % outs[skipped[0]]['linterr'])
-    nfiles_with = 0
+    def file_order(c, o):
+        seen = []
+        for d in o['modes']['oneline']['diags']:
+            if d['file'] not in seen:
+                seen.append(d['file'])
+        want = [n for j, n in enumerate(o['names']) if j != c['clean_at']]
+        return seen, [n for n in want if n in seen]
+    thin = 0
+    misordered = []
     for c, o in zip(cases, outs):
         if o.get('linterr'):
             continue
-        ref = o['modes']['oneline']['diags']
-        files_seen = []
-        for d in ref:
-            if d['file'] not in files_seen:
-                files_seen.append(d['file'])
-        # vacuity guard: at least two files contribute diagnostics, the clean file none, files in argument order
-        want = [n for j, n in enumerate(o['names']) if j != c['clean_at']]
-        if len(files_seen) < 2 or files_seen != [n for n in want if n in files_seen]:
-            raise Inconclusive('multi-file case %d is not as designed: diagnostics of files %s, arguments %s'
-                               % (c['id'], files_seen, o['names']))
-        nfiles_with += len(files_seen)
+        seen, want = file_order(c, o)
+        if len(seen) < 2:
+            # the benign string class provokes no diagnostic at this site: fewer than two contributing files
+            o['linterr'] = 'fewer than two files with diagnostics'
+            thin += 1
+        elif seen != want:
+            misordered.append(c['id'])
+    skipped = [c['id'] for c, o in zip(cases, outs) if o.get('linterr')]
+    ck.cov['multi_file_invocations_with_fewer_than_two_contributing_files'] = thin
+    if len(skipped) > len(cases) // 3:
+        raise Inconclusive('%d of %d multi-file invocations are not as designed' % (len(skipped), len(cases)))
+    if misordered:
+        c = cases[misordered[0]]
+        o2 = run_multi([dict(c)], sd, 'multi-order')[0]
+        if not o2.get('linterr'):
+            seen, want = file_order(c, o2)
+            if seen != want:
+                ck.violation('render-multi:file-order',
+                             'one invocation over the files %s returns (and prints) the diagnostics of the files in the order %s, '
+                             'not in argument order' % (o2['names'], seen),
+                             {'kind': 'multi-order', 'case': {'id': 0, 'files': c['files'], 'sites': c['sites'], 'clean_at': c['clean_at']}})
     recs = multi_records(cases, outs)
     bad, _ = validate(ck, recs, '%d invocations over 3-4 files (one of them clean) x 7 modes' % (len(cases) - len(skipped)), 'trace-multi')
     ck.cov['traces_validated_against_impl'] += len(recs)
@@ -850,12 +868,20 @@ def replay(path):
         bad, _ = validate(None, [(rec, {})], 'replay', 'trace-replay')
         print('property violated (%s)' % bad[0] if bad else 'property holds')
         return 1 if bad else 0
-    if rp['kind'] in ('multi', 'multi-cmd'):
+    if rp['kind'] in ('multi', 'multi-cmd', 'multi-order'):
         case = dict(rp['case'], id=0)
         o = run_multi([case], sd, 'r')[0]
         if o.get('linterr'):
             print('lint failed: ' + o['linterr'])
             return 0
+        if rp['kind'] == 'multi-order':
+            seen = []
+            for d in o['modes']['oneline']['diags']:
+                if d['file'] not in seen:
+                    seen.append(d['file'])
+            want = [n for j, n in enumerate(o['names']) if j != case['clean_at'] and n in seen]
+            print('files in the order of the diagnostics: %s; arguments: %s' % (seen, o['names']))
+            return 1 if seen != want else 0
         if rp['kind'] == 'multi-cmd':
             print('Command.Main stdout %s' % o['modes'][rp['mode']]['cmd'])
             return 1 if o['modes'][rp['mode']]['cmd'] == 'differs' else 0
